@@ -7,7 +7,7 @@ from . import bufarith
 
 PID = "C17"
 META = {
-    "explanation": "Static analysis of the unsafe perimeter (from HIR: every user `unsafe` block / fn / impl and the unsafe operations inside) and of each operation's local obligation on the MIR of the current tree: the perimeter is exactly the reviewed set of (function, unsafe callee) pairs — no user `unsafe impl`, raw-pointer deref, `static mut` or FFI; every lifetime-extending transmute sits in a `&mut self` method whose returned slices carry the region of `self` (never 'static) and originate from data reached through `self`; alloc and dealloc use Layout::from_size_align(S, align_of::<EntryBound>()) with S the very value stored in / read from `len`, the pointer is null-checked before the struct is built, data/len have no other writer, the buffer type is neither Clone nor Copy and Drop holds the only dealloc; allocation sizes are bounded below by positive constants; from_raw_parts(_mut) receive exactly (data, len) under &self / &mut self; align_to / cast_slice target the repr(C), padding-free, derive(Pod) EntryBound; crate-wide no arithmetic is performed on a freshly truncated integer. Compile-fail witnesses show borrowed entries cannot outlive the next &mut call on the public API. For the sorter's two-ended buffer the clause `arithmetic on sizes never overflows` IS decided (C17-R10): a linear-invariant analysis shows entries_len + 16*bounds_count <= buffer.len() is preserved by every mutator and gives a Farkas certificate of non-overflow for each of the 23 checked +,-,* sites of Entries; size arithmetic elsewhere (block decoding of untrusted files, writer offsets) is not claimed; soundness of std, bytemuck, byteorder and the codec crates is trusted.",
+    "explanation": "Static analysis of the unsafe perimeter (from HIR: every user `unsafe` block / fn / impl and the unsafe operations inside) and of each operation's local obligation on the MIR of the current tree: the perimeter is exactly the reviewed set of (function, unsafe callee) pairs — no user `unsafe impl`, raw-pointer deref, `static mut` or FFI; every lifetime-extending transmute sits in a `&mut self` method whose returned slices carry the region of `self` (never 'static) and originate from data reached through `self`; alloc and dealloc use Layout::from_size_align(S, align_of::<EntryBound>()) with S the very value stored in / read from `len`, the pointer is null-checked before the struct is built, data/len have no other writer, the buffer type is neither Clone nor Copy and Drop holds the only dealloc; allocation sizes are bounded below by positive constants; from_raw_parts(_mut) receive exactly (data, len) under &self / &mut self; align_to / cast_slice target the repr(C), padding-free, derive(Pod) EntryBound; crate-wide no arithmetic is performed on a freshly truncated integer. Compile-fail witnesses show borrowed entries cannot outlive the next &mut call on the public API. For the sorter's two-ended buffer the clause `arithmetic on sizes never overflows` IS decided (C17-R10): a linear-invariant analysis shows entries_len + 16*bounds_count <= buffer.len() is preserved by every mutator and gives a Farkas certificate of non-overflow for each of the 23 checked +,-,* sites of Entries; size arithmetic elsewhere (block decoding of untrusted files, writer offsets) is not claimed; soundness of std, bytemuck, byteorder and the codec crates is trusted. The shared file-wellformedness rules (rules/shared.py) are re-run: depth arithmetic on configuration values and the sink count that places every block the reader slices.",
     "assumptions": ["soundness of std, bytemuck, byteorder, codec crates", "a &[u8] over freshly allocated bytes that are written before being read is accepted (Miri accepts it)"],
 }
 
@@ -40,6 +40,10 @@ def run(ck):
         ck.guard("C17-R7", r7_trunc, ck, F)
         ck.guard("C17-R8", r8_pod, ck, F)
         ck.guard("C17-R10", bufarith.run_rule, ck, F)
+        from . import shared
+        # arithmetic on configuration values before they size anything (depth + 1 in u8), and the sink whose count
+        # places every block the reader will slice
+        shared.file_wellformed(ck, F, "C17-R11")
     from . import fixtures, witness
     ck.guard("C17-R7", fixtures.run, ck, "C17")
     ck.guard("C17-R3", witness.run, ck, "C17")
